@@ -137,6 +137,8 @@ fn main() {
             std::process::exit(code);
         }
         Some("worker-depth") => std::process::exit(p_total::worker_main(&args[2..])),
+        #[cfg(feature = "world")]
+        Some("worker-c02") => std::process::exit(p_world::worker_main()),
         Some("worker-fmt") => std::process::exit(p_pure::worker_fmt_main(&args[2..])),
         Some("stress") => {
             let t: usize = args.get(2).map(|s| s.parse().unwrap()).unwrap_or(4);
@@ -182,6 +184,22 @@ fn main() {
                 _ => panic!("unknown scenario"),
             };
             println!("{}", serde_json::to_string(&sc.to_json()).unwrap());
+        }
+        Some("c02-loop") => {
+            let text = std::fs::read_to_string(&args[2]).unwrap();
+            let n: usize = args[3].parse().unwrap();
+            for i in 0..n {
+                let _ = p_world::violated(&format!("{}\n#let unused{} = {}", text, i % 7, i), Cfg::w(80));
+                if i % 200 == 0 {
+                    let rss = std::fs::read_to_string("/proc/self/statm").unwrap();
+                    println!("iter {} statm {}", i, rss.trim());
+                }
+            }
+        }
+        Some("c02-one") => {
+            let text = std::fs::read_to_string(&args[2]).unwrap();
+            let r = p_world::violated(&text, Cfg::w(80));
+            println!("C02-ONE {:?}", r);
         }
         Some("replay") => std::process::exit(props::replay(&args[2])),
         Some("triage") => props::triage(&args[2], workload::Tier::parse(args.get(3).map(|s| s.as_str()).unwrap_or("thorough"))),
